@@ -374,6 +374,14 @@ func judge(rec *Rec) *verdict {
 				}
 			}
 		}
+		if e.K == "count.call" {
+			attrs["trigger"] = "pool-running"
+			for _, x := range evs {
+				if x.K == "stop.call" && x.X == "CollectorPool" && x.N == e.N && x.T < e.T {
+					attrs["trigger"] = "after-pool-stop"
+				}
+			}
+		}
 		if e.K == "stop.call" && e.X == "CollectorPool" {
 			attrs["trigger"] = "no-inbound-connection-after-stop"
 		}
